@@ -135,3 +135,87 @@ def declare(reg, eng):
                         "init_task": {"no_break": True, "body_post": [("C04", "effect_with_arg('cfg.updatedeps', 0, init_task.__xpm__)")]},
                         "(argument, value)": {"no_break": True,
                                               "body_post": [("C04", "implies(not isnone(value), effect_with_arg('updatedeps', 1, value))")]}})
+
+    # ---- C15: validation before submission
+    eng.load("ConfigInformation.validate", "core/objects.py")
+    eng.load("ConfigInformation._validate_value", "core/objects.py")
+    reg.contract("Config.__validate__", params=["self"], modifies=[], raises={"Exception": {"when": []}}, effect="__validate__")
+    reg.contract("ConfigInformation._validate_value", params=["value"], effect="validate_value", no_replay=True,
+                 ensures=["monotone_true('_validated')",
+                          ("C15", "implies(isclass(value, Config), effect_with_arg('cfg.validate', 0, value.__xpm__))"),
+                          ("C15", "implies(isclass(value, list) or isclass(value, set), reached_loop('el'))"),
+                          ("C15", "implies(isclass(value, dict), reached_loop('el'))")],
+                 raises={"ValueError": {"when": []}, "Exception": {"when": []}},
+                 modifies=["*._validated"],
+                 loops={"el#1": {"no_break": True, "invariants": ["monotone_true('_validated')"], "body_post": [("C15", "effect_with_arg('validate_value', 0, el)")]},
+                        "el#2": {"no_break": True, "invariants": ["monotone_true('_validated')"], "body_post": [("C15", "effect_with_arg('validate_value', 0, el)")]}})
+    reg.contract("ConfigInformation.validate", params=["self"], types={"self": "ConfigInformation"}, effect="cfg.validate", no_replay=True,
+                 ensures=["monotone_true('_validated')", ("C15", "self._validated == True"),
+                          ("C15", "implies(not old(self._validated), reached_loop('(k, argument)') and reached_loop('pre_task') and reached_loop('init_task'))")],
+                 raises={"ValueError": {"when": []}, "Exception": {"when": []}},
+                 modifies=["*._validated"],
+                 loops={"(k, argument)": {"no_break": True, "invariants": ["monotone_true('_validated')", "self._validated == True"], "body_post": [
+                            ("C15", "implies(haskey(self.values, k) and not isnone(lookup(self.values, k)), effect_with_arg('validate_value', 0, lookup(self.values, k)))"),
+                            # a required, non generated argument without value never passes (the iteration raises instead of completing)
+                            ("C15", "not ((not haskey(self.values, k) or isnone(lookup(self.values, k))) and argument.required and isnone(argument.generator))")]},
+                        "pre_task": {"no_break": True, "invariants": ["monotone_true('_validated')", "self._validated == True"],
+                                     "body_post": [("C15", "effect_with_arg('cfg.validate', 0, pre_task.__xpm__)")]},
+                        "init_task": {"no_break": True, "invariants": ["monotone_true('_validated')", "self._validated == True"],
+                                      "body_post": [("C15", "effect_with_arg('cfg.validate', 0, init_task.__xpm__)")]}})
+
+    # ---- C01: identifier cache soundness (HashComputer.compute) and caching discipline (identifiers)
+    eng.load("HashComputer.compute", "core/objects.py")
+    reg.klass("PushCM", [], {"cp": "ConfigPath"})
+    reg.contract("ConfigPath", params=[], fresh="ConfigPath", returns="ConfigPath", modifies=[], ensures=["length(result.loops) == 0"])
+    reg.contract("ConfigPath.push", params=["self", "config"], types={"self": "ConfigPath"}, fresh="PushCM", returns="PushCM", modifies=[],
+                 ensures=["result.cp is self"])
+    reg.contract("PushCM.__enter__", params=["self"], types={"self": "PushCM"}, modifies=["elems(self.cp.loops)", "dict(self.cp.config2index)"],
+                 ensures=["length(self.cp.loops) == old(length(self.cp.loops)) + 1"], effect="path.push")
+    reg.contract("PushCM.__exit__", params=["self"], types={"self": "PushCM"}, modifies=["elems(self.cp.loops)", "dict(self.cp.config2index)"],
+                 effect="path.pop")
+    reg.contract("ConfigPath.has_loop", params=["self"], types={"self": "ConfigPath"}, returns="bool", modifies=[], effect="has_loop",
+                 requires=["length(self.loops) >= 1"], ensures=["result == at(self.loops, length(self.loops) - 1)"])
+    eng.functions.pop("ConfigPath.has_loop", None); eng.inline_keys.discard("ConfigPath.has_loop")
+    reg.contract("HashComputer", params=["config", "config_path", "version"], defaults={"version": "None"}, fresh="HashComputer", returns="HashComputer",
+                 modifies=[], ensures=["result.config is config", "result.config_path is config_path"])
+    reg.contract("HashComputer.update", params=["self", "value", "myself"], defaults={"myself": "False"}, types={"self": "HashComputer"},
+                 modifies=["elems(self.config_path.loops)", "*.stream"], effect="hash.update",
+                 ensures=["length(self.config_path.loops) == old(length(self.config_path.loops))"],
+                 raises={"NotImplementedError": {"when": []}, "Exception": {"when": []}})
+    reg.contract("HashComputer.identifier", params=["self"], types={"self": "HashComputer"}, fresh="Identifier", returns="Identifier", modifies=[],
+                 ensures=["result.has_loops == False"], effect="hash.identifier")
+    reg.contract("HashComputer.compute", params=["config", "config_path", "version"], defaults={"config_path": "None", "version": "None"},
+                 types={"config": "Config", "config_path": "opt:ConfigPath"}, returns="Identifier", no_replay=True,
+                 ensures=[
+                     # the cached identifier is returned only when it is provably context independent
+                     ("C01", "implies(no_effect('hash.update'), config.__xpm__._sealed and result is old(config.__xpm__._raw_identifier) and not result.has_loops)"),
+                     # a freshly computed identifier records whether a cycle reference at or above this node was emitted below it
+                     ("C01", "implies(effect('hash.update'), isfresh(result) and result.has_loops == effect_result('has_loop'))"),
+                     ("C01", "implies(effect('hash.update'), effect_before('path.push', 'hash.update') and effect_before('hash.update', 'has_loop') "
+                             "and effect_before('has_loop', 'path.pop') and effect_count('hash.update') == 1)"),
+                     ("C14", "config.__xpm__._raw_identifier is old(config.__xpm__._raw_identifier)")],      # compute itself never caches
+                 raises={"NotImplementedError": {"when": []}, "Exception": {"when": []}, "AssertionError": {"when": []}},
+                 modifies=None)
+
+    # ---- C14 / C17: sealing (the Sealer walker of ConfigInformation.seal) and identifier caching
+    eng.load("ConfigInformation.seal.Sealer.postprocess", "core/objects.py", qualname="ConfigInformation.seal.Sealer.postprocess")
+    eng.load("ConfigInformation.seal.Sealer.preprocess", "core/objects.py", qualname="ConfigInformation.seal.Sealer.preprocess")
+    reg.klass("Sealer", [], {"context": "ConfigWalkContext"})
+    reg.klass("Signature", [], {"parameters": "dict[str,any]"})
+    reg.contract("inspect.signature", params=["f"], fresh="Signature", returns="Signature", modifies=[])
+    reg.contract("Generator.__call__", params=["self", "context", "config"], defaults={"context": "None", "config": "None"}, modifies=[], effect="generate")
+    reg.contracts["ConfigInformation.set"]["effect"] = "cfg.set"
+    reg.contract("ConfigInformation.seal.Sealer.preprocess", params=["self", "config"], types={"self": "Sealer", "config": "Config"}, returns="tuple",
+                 modifies=[], ensures=[("C14", "at(result, 0) == (not config.__xpm__._sealed) and at(result, 1) is config")])
+    reg.contract("ConfigInformation.seal.Sealer.postprocess", params=["self", "stub", "config", "values"],
+                 types={"self": "Sealer", "config": "Config"}, no_replay=True,
+                 requires=["config.__xpm__.values is not config.__xpm__.xpmtype.arguments"],
+                 ensures=[("C14", "config.__xpm__._sealed == True"), ("C17", "reached_loop('(k, argument)')")],
+                 raises={"AttributeError": {"when": []}, "Exception": {"when": []}, "AssertionError": {"when": []}},
+                 modifies=None, track_writes=["_sealed"],
+                 effect_guards={"write:_sealed": [("C14", "_arg0 is config.__xpm__ and _arg1 == True")]},
+                 loops={"(k, argument)": {"no_break": True, "body_post": [
+                     # every generated argument is produced from the walk context at this node and stored bypassing the seal
+                     ("C17", "implies(not isnone(argument.generator), effect('generate') and effect_with_arg('cfg.set', 0, config.__xpm__) "
+                             "and effect_arg('cfg.set', 1) == k and effect_arg('cfg.set', 3) == True)"),
+                     ("C17", "implies(isnone(argument.generator), no_effect('cfg.set'))")]}})
